@@ -157,15 +157,18 @@ def _flatten_previous(op, x, testers, context,
     # (if child is terminal)
     # added benefit: shares some history vars among subformulas
     strong = (op == '--X')
+    # only for variables: the previous value of
+    # a constant (e.g., `--X TRUE`, which is `FALSE` initially)
+    # needs a tester, like any other expression
     propagate = (
-        len(x) == 1)
+        len(x) == 1 and
+        isinstance(x, _Nodes.Var))
     if propagate:
         previous += 1
         return x.flatten(testers=testers, context=context,
                          previous=previous, strong=strong, *arg, **kw)
     # create tester here
     assert context == 'bool', context
-    assert len(x) > 1, 'operand is an operator'
     expr = x.flatten(testers=testers, context=context, *arg, **kw)
     # bottom-up counting is safe
     # `len` *must* be called after `flatten`
